@@ -210,8 +210,9 @@ def tcp_exception(req: dict, code: int, txid: int = None) -> bytes:
     return tx.to_bytes(2, "big") + b"\0\0" + len(pdu).to_bytes(2, "big") + pdu
 
 
-def aa55_response(rtype: str, payload: bytes) -> bytes:
-    fr = bytes.fromhex("AA557FC0") + bytes.fromhex(rtype) + bytes([len(payload)]) + payload
+def aa55_response(rtype: str, payload: bytes, addr: bytes = b"\x7f\xc0") -> bytes:
+    """AA55 frame: header AA 55, source / destination address bytes (7F C0 from a stock inverter), response type, length, payload, sum"""
+    fr = bytes.fromhex("AA55") + bytes(addr) + bytes.fromhex(rtype) + bytes([len(payload)]) + payload
     return fr + aa55_sum(fr)
 
 
